@@ -27,8 +27,11 @@ NWORKERS = int(os.environ.get("VERIF_WORKERS", "16"))
 MAX_VIOLATION_LINES = 25
 
 
-class Hang(Exception):
-    pass
+class Hang(BaseException):
+    """raised by the watchdog timer; a BaseException so that no `except Exception` in the code under test swallows it"""
+
+
+WATCHDOG_REPEAT_S = 2.0   # the timer keeps firing until it is cleared: a swallowed Hang is raised again
 
 
 def _alarm(signum, frame):
@@ -83,7 +86,7 @@ def exec_case(prop, case, budget=None):
     tree.reset_options()
     budget = budget or getattr(prop, "CASE_BUDGET_S", 60)
     signal.signal(signal.SIGALRM, _alarm)
-    signal.setitimer(signal.ITIMER_REAL, budget)
+    signal.setitimer(signal.ITIMER_REAL, budget, WATCHDOG_REPEAT_S)
     try:
         prop.run_case(case, R)
     except Hang as err:
@@ -102,7 +105,7 @@ def exec_case(prop, case, budget=None):
     return R.result()
 
 
-def _worker(prop, cases, counter, journal, wid, outpath, chunk):
+def _worker(prop, cases, counter, journal, started, wid, outpath, chunk):
     import numpy  # noqa: F401
     with open(outpath, "ab") as out:
         while True:
@@ -113,6 +116,7 @@ def _worker(prop, cases, counter, journal, wid, outpath, chunk):
                 break
             for i in range(start, min(start + chunk, len(cases))):
                 journal[wid] = i
+                started[wid] = time.time()
                 res = exec_case(prop, cases[i])
                 pickle.dump((i, res), out)
                 out.flush()
@@ -129,9 +133,14 @@ def run_pool(prop, cases, nworkers=NWORKERS):
         chunk = max(1, min(64, len(cases) // (nworkers * 8) or 1))
         counter = multiprocessing.Value("l", 0)
         journal = multiprocessing.Array("l", [-1] * 4096)
+        started = multiprocessing.Array("d", [0.0] * 4096)
         procs = {}
         nxt = 0
         crashes = []
+        killed = set()
+        # last line of defence against code that never returns to the interpreter's signal check or swallows the
+        # watchdog's exception: the parent kills a worker that sits on one case far beyond the case budget
+        hard_limit = 1.5 * getattr(prop, "CASE_BUDGET_S", 60) + 60
 
         def spawn():
             nonlocal nxt
@@ -141,14 +150,26 @@ def run_pool(prop, cases, nworkers=NWORKERS):
             pid = os.fork()
             if pid == 0:
                 try:
-                    _worker(prop, cases, counter, journal, wid, path, chunk)
+                    _worker(prop, cases, counter, journal, started, wid, path, chunk)
                 finally:
                     os._exit(3)
             procs[pid] = wid
         for _ in range(nworkers):
             spawn()
         while procs:
-            pid, status = os.wait()
+            pid, status = os.waitpid(-1, os.WNOHANG)
+            if pid == 0:
+                now = time.time()
+                for p_, w_ in list(procs.items()):
+                    if journal[w_] >= 0 and started[w_] and now - started[w_] > hard_limit:
+                        killed.add(journal[w_])
+                        started[w_] = 0.0
+                        try:
+                            os.kill(p_, signal.SIGKILL)
+                        except OSError:
+                            pass
+                time.sleep(0.05)
+                continue
             if pid not in procs:
                 continue
             wid = procs.pop(pid)
@@ -171,8 +192,12 @@ def run_pool(prop, cases, nworkers=NWORKERS):
         for i, status in crashes:
             if i >= 0 and i not in results:
                 R = Recorder(cases[i])
-                R.fail(cases[i].get("k", "?"), "crash", f"worker died with wait status {status} while running this case",
-                       tags=["crash"])
+                if i in killed:
+                    R.fail(cases[i].get("k", "?"), "hang", f"no result after {hard_limit:.0f}s and the in-process watchdog did not get through: worker killed",
+                           tags=["hang", "killed"])
+                else:
+                    R.fail(cases[i].get("k", "?"), "crash", f"worker died with wait status {status} while running this case",
+                           tags=["crash"])
                 results[i] = R.result()
         missing = [i for i in range(len(cases)) if i not in results]
         # cases lost in the chunk of a crashed worker: run them again, each alone in a fresh child
@@ -195,9 +220,33 @@ def run_isolated(prop, case):
         finally:
             os._exit(0)
     os.close(w)
-    with os.fdopen(r, "rb") as f:
-        data = f.read()
+    hard_limit = 1.5 * getattr(prop, "CASE_BUDGET_S", 60) + 60
+    t0 = time.time()
+    chunks = []
+    os.set_blocking(r, False)
+    timed_out = False
+    while True:
+        try:
+            b = os.read(r, 1 << 16)
+            if not b:
+                break
+            chunks.append(b)
+        except BlockingIOError:
+            if time.time() - t0 > hard_limit:
+                timed_out = True
+                try:
+                    os.kill(pid, signal.SIGKILL)
+                except OSError:
+                    pass
+                break
+            time.sleep(0.05)
+    os.close(r)
+    data = b"".join(chunks)
     _, status = os.waitpid(pid, 0)
+    if timed_out:
+        R = Recorder(case)
+        R.fail(case.get("k", "?"), "hang", f"isolated run gave no result after {hard_limit:.0f}s: killed", tags=["hang", "killed"])
+        return R.result()
     if status != 0 or not data:
         R = Recorder(case)
         R.fail(case.get("k", "?"), "crash", f"isolated run died with wait status {status}", tags=["crash"])
